@@ -422,3 +422,36 @@ Definition obs_of (cfg : config) (nseen : N -> string -> N) (s : sstep) (x : con
   | SBlock h _, RDec _ => OBlock h [] true [] ""
   | SDec outs ri, RBlock _ => ODec outs ri DecPanic [] ""
   end.
+
+(* ---------------------------------------------------------------------------------------- *)
+(* Round 5 - HandleEvents: what reaches the relayer.
+   chains/btc/listener/event-handlers.go
+     domainDeposits, err := eh.ProcessDeposits(blockNumber)      map destination domain -> its messages
+     for _, deposits := range domainDeposits {
+       go func(d []*message.Message) { eh.msgChan <- d }(deposits)      every goroutine is HANDED its batch
+     }
+   A transaction is treated as a deposit only if its message arrives on the message channel.  [ms] = what
+   ProcessDeposits made of the transactions of the block, in block order (sres.RBlock). *)
+
+Fixpoint add_to_dest (d : N) (m : pres) (g : list (N * list pres)) : list (N * list pres) :=
+  match g with
+  | [] => [(d, [m])]
+  | (d', l) :: r => if N.eqb d d' then (d', l ++ [m]) :: r else (d', l) :: add_to_dest d m r
+  end.
+
+(* domainDeposits (destinations in order of first appearance; the map has no order) *)
+Definition by_dest (ms : list pres) : list (N * list pres) :=
+  fold_left (fun g m => match m with Msg d _ _ _ _ => add_to_dest d m g | NoMsg => g end) ms [].
+
+(* the batches sent on the message channel for a block, one per destination domain (they arrive in the order
+   the scheduler chooses) *)
+Definition sent_batches (ms : list pres) : list (list pres) := map snd (by_dest ms).
+
+Definition is_msg (p : pres) : bool := match p with NoMsg => false | Msg _ _ _ _ _ => true end.
+Definition msg_dest (p : pres) : option N := match p with NoMsg => None | Msg d _ _ _ _ => Some d end.
+
+(* NOT the code: the goroutines are not handed their batch but read the loop variable when they run - go.mod
+   says go 1.21, one variable for the whole loop - which is after the loop has ended: every one of them sends
+   the batch of the last iteration.  Kept to state what goes wrong with it (C15_events_shared_var_refuted). *)
+Definition shared_var_batches (ms : list pres) : list (list pres) :=
+  let bs := sent_batches ms in map (fun _ => last bs []) bs.
